@@ -33,13 +33,15 @@ LAYER_NAMES = ["L1", "L2", "L3", "L4"]
 def plan(tier, seed):
     if tier == "quick":
         shards = plan_graph_shards("A", n_max=4, chunk=8)
-        shards += plan_graph_shards("B", n_max=5, n_min=5, k=1, parts=2)
+        shards += plan_graph_shards("B", n_max=5, n_min=5, k=2, parts=6)
     else:
         shards = plan_graph_shards("A", n_max=5, chunk=16)
         shards += plan_graph_shards("B", n_max=6, n_min=6, k=2, parts=16)
     out = []
     for s in shards:
         for naming in ("identity", "adversarial"):
+            if tier == "quick" and s.get("edges") == 2 and naming != "identity":
+                continue  # quick: two-edge architectures on five modules under one naming only
             out.append(dict(s, naming=naming, bound=s["bound"] + f" naming={naming}"))
     req = [f"{v}/{e}/{o}" for v in ("should", "should_only", "should_not") for e in (False, True) for o in (PASS, FAIL)]
     return {"shards": out, "require_nonzero": req + ["anything/PASS", "anything/FAIL", "style:names", "style:regex", "style:mixed", "re-applied"]}
@@ -190,8 +192,9 @@ def run_shard(shard, tier, seed):
         ns, I = _renamed(ns, I, shard["naming"])
         ev = build(ns, I, seed)
         res.states += 1
+        light = tier == "quick" and shard.get("edges") == 2  # quick, deepest edge bound: two definition styles, no decoys
         for layers, specs in _layerings(ns):
-            for style in STYLES:
+            for style in (("names", "regex") if light else STYLES):
                 # one LayeredArchitecture object per definition, shared by all rules (as in a test module)
                 la = mk_layered_architecture(layer_defs(layers, style), seed)
                 la0, dirty = generic_canon(la), False
@@ -208,7 +211,7 @@ def run_shard(shard, tier, seed):
                         res.stats["shared-definition-changed-by-a-rule"] += 1
                     if v:
                         res.violation(v[0], {"modules": ns, "imports": I, "layers": layers, "style": style, "rule": spec, "seed": seed}, v[1], v[2])
-                    if style in ("regex", "mixed"):
+                    if not light and (style == "regex" or (style == "mixed" and shard["space"] == "A")):
                         for d in decoys(ns, I, layers, spec):
                             res.transitions += 1
                             res.evaluations += 1
